@@ -234,6 +234,9 @@ def infosPure (fuel : Nat) (c : List R) (form : String) (mu : R) : Option (List 
 
 /-! ### `copy(frame=…, form=…)` -/
 
+/-- `get_form(name)`: `_cache[name.lower()]` -/
+def canonForm (name : String) : Option String := Generated.formsCache.lookup name.toLower
+
 def copyStep (fuel : Nat) (fr : Option (Nat × R × Affine)) (form : Option String) (s : St) (step : String) : Option (St × Out) :=
   if step = "frame" then
     match fr with
@@ -242,7 +245,7 @@ def copyStep (fuel : Nat) (fr : Option (Nat × R × Affine)) (form : Option Stri
   else if step = "form" then
     match form with
     | some n =>
-      match Generated.formsCache.lookup n with
+      match canonForm n with
       | some t => if t = s.form then some (s, Out.done) else (setFormSt fuel s t).map (fun s' => (s', Out.done))
       | none => some (s, Out.unknownForm)
     | none => some (s, Out.done)
@@ -267,7 +270,7 @@ def applyOp (fuel : Nat) (s : St) : Op → Option (St × Out)
   | .addSlice lo hi k => some ({ s with c := mapSlice s.c lo hi (· + k) }, Out.done)
   | .setSlice lo vs => some ({ s with c := setSliceAt s.c lo vs }, Out.done)
   | .setForm name =>
-    match Generated.formsCache.lookup name with
+    match canonForm name with
     | some t => (setFormSt fuel s t).map (fun s' => (s', Out.done))
     | none => some (s, Out.unknownForm)
   | .setFrame id mu A => (setFrameSt fuel s id mu A).map (fun s' => (s', Out.done))
